@@ -660,6 +660,9 @@ func TestBoundedParseLayouts(t *testing.T) {
 			}
 		}
 		for v := 0; v < 14; v++ {
+			if os.Getenv("VERIF_BOUNDED_MODE") == "structure" {
+				break // only the structural and precedence oracles: the layout variants (and their findings) are C08's
+			}
 			l := &layout{unit: units[r.Intn(len(units))], crlf: r.Intn(3) == 0, spell: r.Intn(2), parens: r.Intn(3) == 0, cmdSpaces: r.Intn(3) == 0,
 				feature: features[v%len(features)], r: r, splitAt: map[int]bool{}, trailingCmt: v >= 10 && r.Intn(2) == 0}
 			if v >= 10 { // variants 10..13: reader splits and trailing comments with no line insertion
